@@ -257,12 +257,18 @@ Section Spec.
     end.
 
   (* tag 1: F2, a directory "<32 hex><suffix>" is planted; tag 2: a re-key fails with DestinationExists (the
-     in-memory state point stays modified); tag 3: a document-touching operation through a stale handle *)
-  Definition trigger (s : sstate) (o : op) (r : sres) : nat :=
+     in-memory state point stays modified); tag 3: a document-touching operation through a stale handle;
+     tag 4: a state point change raises the lock registry's KeyError *)
+  Definition trigger (s : sstate) (o : op) (r : sres) (out : oval) : nat :=
     match o with
     | OPlantDir p => if suffix_id_name (last p []) then 1 else 0
     | OEdit _ _ _ | OAssign _ _ | OUpdateSp _ _ _ =>
-        match r with SErr EDestinationExists => 2 | _ => 0 end
+        match r, out with
+        | SErr EDestinationExists, _ => 2
+        | SErr EKeyError, _ => 0
+        | _, VExn EKeyError => 4      (* tag 4: the lock registry lost the entry of this handle's state point file *)
+        | _, _ => 0
+        end
     | ODoc h | ODocSet h _ _ | ODocReset h _ | OClear h | OReset h | ORemove h =>
         if stale_handle s h then 3 else 0
     | _ => 0
@@ -322,7 +328,7 @@ Section Spec.
     | [] => (None, trg)
     | st :: rest =>
         let '(s1, r) := sstep s (t_op st) (t_out st) in
-        let tg := trigger s (t_op st) r in
+        let tg := trigger s (t_op st) r (t_out st) in
         let trg1 := if Nat.eqb tg 0 then trg else (idx, tg) :: trg in
         let cur := match t_snap st with VSnapSame => prev | x => x end in
         let ok := res_ok r (t_out st) &&
